@@ -84,7 +84,7 @@ M = [
         model.eval()?,
     ))''', 1, ['C13', 'C14']),
  ('fws_resid_unweighted', ST, 'let weighted_residuals = weighted_data - weights * model.eval()? * linear_coefficients;', 'let weighted_residuals = weighted_data - model.eval()? * linear_coefficients;', 1, ['C12']),
- ('diag_mul_skip_last', UT, 'rhs.column_iter_mut()\n            .for_each(|mut col| col.component_mul_assign(&self.diagonal));', 'rhs.column_iter_mut().skip(1)\n            .for_each(|mut col| col.component_mul_assign(&self.diagonal));', 1, ['UND']),
+ ('diag_mul_skip_last', UT, 'rhs.column_iter_mut()\n            .for_each(|mut col| col.component_mul_assign(&self.diagonal));', 'rhs.column_iter_mut().skip(1)\n            .for_each(|mut col| col.component_mul_assign(&self.diagonal));', 1, ['C06']),   # unknown adapter: DiagMatrix::mul is degraded; reported by the bounded stand-in (algebra_sweep)
  # harmless edits: nothing may alarm (exit 2 allowed where noted)
  ('harmless_comment', LM, '        // calculate the svd\n', '        // calculate the singular value decomposition\n', 2, []),
  ('harmless_reorder_let', LM, '''        // calculate the svd
